@@ -187,6 +187,12 @@ MATH_FUNCS = {'sin', 'cos', 'tan', 'atan', 'atan2', 'asin', 'acos', 'exp', 'log'
               'log10', 'log2', 'sinh', 'cosh', 'tanh'}
 
 
+# functions that do not exist on the reference tree (tlint/known_functions.txt): a call to one of them from an analysed
+# function is an extracted helper and is walked in place, so that an extract-method refactoring leaves every rule's view
+# of the caller unchanged.  {(class qual | module name, function name): FuncInfo}; filled by tlint.__main__.
+NEW_HELPERS = {}
+
+
 class Walker:
     """Symbolic walker over one function."""
 
@@ -496,6 +502,12 @@ class Walker:
                                            conds=tuple(st.conds), loops=tuple(st.loops), seq=self.seq, value='<list>.append'))
                     return None
                 text = '%s.%s(%s)' % (self.base_text(recv), fn.attr, self.argtext(args, kwargs))
+                if fn.attr == 'pop' and not args and not kwargs:
+                    # successive pops of one stack are different values
+                    k = sum(1 for e in st.events if e.kind == 'call' and e.name == 'pop' and isinstance(e.value, str) and
+                            (e.value == text or e.value.startswith(text + '#')))
+                    if k:
+                        text = '%s#%d' % (text, k)
             else:
                 text = '%s(%s)' % (self.base_text(recv), self.argtext(args, kwargs))
         self.seq += 1
@@ -768,6 +780,22 @@ class Walker:
             raise shape_error('assignment target %s not modelled' % type(target).__name__, self._where(node))
 
     def _stmt(self, s, st):
+        if isinstance(s, (ast.Assign, ast.Expr, ast.Return)) and isinstance(s.value, ast.Call):
+            fi = self._helper_for(s.value, st)
+            if fi is not None:
+                for kind, st2, v in self._inline_helper(fi, s.value, st):
+                    if kind == 'raise':
+                        yield Outcome('raise', st2, None, v)
+                    elif isinstance(s, ast.Assign):
+                        for t in s.targets:
+                            self.bind(t, v if v is not None else Rat.atom('None'), st2, s)
+                        yield Outcome('fall', st2)
+                    elif isinstance(s, ast.Return):
+                        self._count()
+                        yield Outcome('return', st2, v, s)
+                    else:
+                        yield Outcome('fall', st2)
+                return
         if isinstance(s, ast.Assign):
             # top-level inlinable call / ternary: fork
             forks = self._fork_value(s.value, st)
@@ -979,6 +1007,151 @@ class Walker:
             return res
         return None
 
+    def state_before(self, stmts, target, st=None):
+        """state reached just before statement `target` (searched through the compound statements of `stmts`), on the
+        first normal path; loop bodies are entered with their assigned names unknown.  Aliases and temporaries defined
+        before `target` are thus known when a rule walks `target` on its own.  None if `target` is not found."""
+        if st is None:
+            st = State()
+        for i, s in enumerate(stmts):
+            if s is target:
+                return st
+            if any(n is target for n in ast.walk(s)):
+                if isinstance(s, (ast.For, ast.While)):
+                    for name in sorted(self.assigned_names(s.body)):
+                        st.env[name] = self.new_atom(name)
+                    if isinstance(s, ast.For):
+                        for n in ast.walk(s.target):
+                            if isinstance(n, ast.Name):
+                                st.env[n.id] = Rat.atom(n.id)
+                    r = self.state_before(s.body, target, st)
+                    return r if r is not None else self.state_before(s.orelse, target, st)
+                if isinstance(s, ast.If):
+                    r = self.state_before(s.body, target, st.fork())
+                    return r if r is not None else self.state_before(s.orelse, target, st)
+                if isinstance(s, ast.With):
+                    return self.state_before(s.body, target, st)
+                if isinstance(s, ast.Try):
+                    return self.state_before(s.body + s.orelse + s.finalbody, target, st)
+                return None
+            saved = self.loop_mode
+            self.loop_mode = 'skip'
+            try:
+                nxt = [o for o in self._stmt(s, st) if o.kind == 'fall']
+            finally:
+                self.loop_mode = saved
+            if not nxt:
+                return None
+            st = nxt[0].state
+        return None
+
+    @staticmethod
+    def carried(outs, names, mark='@'):
+        """names (given the pre-iteration atoms NAME+mark) whose pre-iteration value is read by the walked loop body"""
+        def atoms_of(v):
+            if isinstance(v, Rat):
+                return set(v.atoms())
+            if isinstance(v, (list, tuple)):
+                out = set()
+                for x in v:
+                    out |= atoms_of(x)
+                return out
+            if isinstance(v, Cond):
+                out = atoms_of(v.a) | atoms_of(v.b)
+                for c in (v.items or []):
+                    out |= atoms_of(c)
+                return out
+            return set()
+        seen = set()
+        for o in outs:
+            for e in o.state.events:
+                for v in (e.value, e.index, e.recv, e.args, list((e.kwargs or {}).values())):
+                    seen |= atoms_of(v)
+            for c, _ in o.state.conds:
+                seen |= atoms_of(c)
+            for k, v in o.state.env.items():
+                if k not in names or not (isinstance(v, Rat) and v.single_atom() == k + mark):
+                    seen |= atoms_of(v)
+        text = ' '.join(seen)
+        return [n for n in names if (n + mark) in seen or (n + mark) in text]
+
+    def comp_info(self, n, st):
+        """a one-generator comprehension as the loop it abbreviates: {'var', 'range', 'iter', 'elt', 'ifs'} or None"""
+        if not isinstance(n, (ast.ListComp, ast.GeneratorExp)) or len(n.generators) != 1 or not isinstance(n.generators[0].target, ast.Name):
+            return None
+        g = n.generators[0]
+        sub = st.fork()
+        info = {'var': g.target.id, 'range': self.range_info(g.iter, sub), 'node': n}
+        info['iter'] = self.ex(g.iter, sub) if info['range'] is None else None
+        sub.env[g.target.id] = Rat.atom(g.target.id)
+        info['ifs'] = [self.cond(c, sub) for c in g.ifs]
+        info['elt'] = self.ex(n.elt, sub)
+        return info
+
+    # ---- extracted helpers ---------------------------------------------------
+    def _helper_for(self, n, st):
+        """FuncInfo of a helper unknown on the reference tree that the call `n` resolves to (self.m(...) / m(...)), or None"""
+        if not NEW_HELPERS or not isinstance(n, ast.Call) or self.func is None or getattr(self, '_depth', 0) > 3:
+            return None
+        fn = n.func
+        if isinstance(fn, ast.Attribute) and isinstance(fn.value, ast.Name) and fn.value.id == 'self' and self.func.cls is not None:
+            v = st.env.get('self')
+            if v is not None and not (isinstance(v, Rat) and v.single_atom() == 'self'):
+                return None
+            return NEW_HELPERS.get((self.func.cls.qual, fn.attr))
+        if isinstance(fn, ast.Name) and fn.id not in st.env:
+            return NEW_HELPERS.get((self.func.module.name, fn.id))
+        return None
+
+    def _inline_helper(self, fi, n, st):
+        """walk the body of helper `fi` in place of the call `n`: yields ('fall', state, value) / ('raise', state, node)"""
+        args = [self.ex(a, st) for a in n.args]
+        kwargs = {k.arg: self.ex(k.value, st) for k in n.keywords if k.arg}
+        params = fi.params
+        env = {k: v for k, v in st.env.items() if isinstance(k, str) and ('.' in k or '[' in k or k.startswith('__'))}
+        if fi.cls is not None and params and params[0] == 'self':
+            params = params[1:]
+            env['self'] = st.env.get('self', Rat.atom('self'))
+        defaults = fi.node.args.defaults
+        allp = [a.arg for a in fi.node.args.args]
+        for i, d in enumerate(defaults):
+            env[allp[len(allp) - len(defaults) + i]] = self.ex(d, State())
+        for p_, a in zip(params, args):
+            env[p_] = a
+        for k, v in kwargs.items():
+            env[k] = v
+        sub = Walker(fi, self.loop_mode, self.inline, self.global_lookup, self.rel, self.assign_events, solve_eq=self.solve_eq)
+        sub._depth = getattr(self, '_depth', 0) + 1
+        sub.fresh = self.fresh
+        sub.seq = self.seq
+        sub.npaths = self.npaths
+        st0 = State(env, list(st.conds), list(st.events), list(st.loops))
+        body = fi.node.body
+        if body and isinstance(body[0], ast.Expr) and isinstance(body[0].value, ast.Constant) and isinstance(body[0].value.value, str):
+            body = body[1:]
+        outs = list(sub.run(body, st0))
+        self.fresh = sub.fresh
+        self.seq = sub.seq
+        self.npaths = sub.npaths
+        for o in outs:
+            if o.kind == 'raise':
+                yield ('raise', o.state, o.node)
+                continue
+            st2 = State(dict(st.env), o.state.conds, o.state.events, list(st.loops))
+            for k in [k for k in st2.env if isinstance(k, str) and ('.' in k or '[' in k)]:
+                del st2.env[k]
+            for k, v in o.state.env.items():
+                if isinstance(k, str) and ('.' in k or '[' in k or k.startswith('__')):
+                    st2.env[k] = v
+            # a list argument mutated in place by the helper (append) is seen by the caller
+            for p_, a in zip(params, args):
+                new = o.state.env.get(p_)
+                if isinstance(a, list) and isinstance(new, list) and new is not a:
+                    for k, v in list(st2.env.items()):
+                        if v is a:
+                            st2.env[k] = new
+            yield ('fall', st2, o.value if o.kind == 'return' else None)
+
     # ---- loops ------------------------------------------------------------
     def range_info(self, it, st):
         """for `range(...)`/`enumerate`: (lo, hi, step) values or None"""
@@ -990,6 +1163,17 @@ class Walker:
                 return (a[0], a[1], Rat.const(1))
             if len(a) == 3:
                 return (a[0], a[1], a[2])
+        # reversed(range(lo, hi)) = range(hi - 1, lo - 1, -1) ; range(...)[::-1] likewise (unit step only)
+        inner = None
+        if isinstance(it, ast.Call) and isinstance(it.func, ast.Name) and it.func.id == 'reversed' and len(it.args) == 1:
+            inner = it.args[0]
+        elif isinstance(it, ast.Subscript) and isinstance(it.slice, ast.Slice) and it.slice.lower is None and it.slice.upper is None \
+                and isinstance(it.slice.step, ast.UnaryOp) and ast.unparse(it.slice.step) == '-1':
+            inner = it.value
+        if inner is not None:
+            r = self.range_info(inner, st)
+            if r is not None and isinstance(r[2], Rat) and r[2].isconst() and r[2].constval() == 1:
+                return (r[1] - Rat.const(1), r[0] - Rat.const(1), Rat.const(-1))
         return None
 
     def _loop(self, s, st):
